@@ -24,6 +24,34 @@ theorem code_weighted_eq_sum (ws vals : List ℝ) :
   rw [weighted_eq_sum] at this
   simpa [Elem.ofNat'] using this
 
+/-- the value the translated loop returns -/
+noncomputable def codeWeighted (ws vals : List ℝ) : ℝ :=
+  (List.zip ws vals).foldl (fun z p => bodyStep Gen.weightedBody z p.1 p.2) (0 : ℝ)
+
+/-- the translated loop computes the model's `weighted` -/
+theorem code_weighted_eq_model (ws vals : List ℝ) : codeWeighted ws vals = weighted ws vals := by
+  unfold codeWeighted; rw [code_weighted_eq_sum, weighted_eq_sum]
+
+/-- the translated loop with a single component of weight one returns that component's value -/
+theorem code_weighted_single_one (v : ℝ) : codeWeighted [1] [v] = v := by
+  rw [code_weighted_eq_model]; exact weighted_single_one v
+
+/-- the translated loop: non-negative weights, components bounded below by `m` — the value is at least `m · Σ w` -/
+theorem code_weighted_lower_bound (m : ℝ) (ws vals : List ℝ) (h : ws.length = vals.length)
+    (hw : ∀ w ∈ ws, 0 ≤ w) (hv : ∀ v ∈ vals, m ≤ v) : m * ws.sum ≤ codeWeighted ws vals := by
+  rw [code_weighted_eq_model]; exact weighted_lower_bound m ws vals h hw hv
+
+/-- the translated loop: non-negative weights — the value is monotone in every component value -/
+theorem code_weighted_mono (ws vals vals' : List ℝ) (h : vals.length = vals'.length)
+    (hw : ∀ w ∈ ws, 0 ≤ w) (hv : ∀ i (h1 : i < vals.length) (h2 : i < vals'.length), vals[i] ≤ vals'[i]) :
+    codeWeighted ws vals ≤ codeWeighted ws vals' := by
+  rw [code_weighted_eq_model, code_weighted_eq_model]; exact weighted_mono ws vals vals' h hw hv
+
+/-- the translated loop: scaling every weight scales the value -/
+theorem code_weighted_smul (c : ℝ) (ws vals : List ℝ) :
+    codeWeighted (ws.map (c * ·)) vals = c * codeWeighted ws vals := by
+  rw [code_weighted_eq_model, code_weighted_eq_model]; exact weighted_smul c ws vals
+
 /-- the loop's shape: accumulator starts at `0`, iterates `zip(self.functions, self.weights)`
     unpacked as `(f, w)`, returns the accumulator -/
 theorem code_weighted_rule :
